@@ -210,6 +210,18 @@ fn generate_dynamic_machine(machine: &StateMachine) -> Result<TokenStream2> {
                         let source_state = state;
                         let target_state = &edge.target;
 
+                        // An around callback can abort with the InvalidTransition kind, which
+                        // carries no state: report the state the machine was in
+                        let source_name = source_state.to_string();
+                        let guard_err = quote! {
+                            match state_machines::DynamicError::from_guard_error(err) {
+                                state_machines::DynamicError::InvalidTransition { event, .. } => {
+                                    state_machines::DynamicError::invalid_transition(#source_name, event)
+                                }
+                                other => other,
+                            }
+                        };
+
                         // Generate the match arm for this transition
                         // Use event_pascal for enum variant matching
                         // Use event_method for calling the snake_case typestate method
@@ -221,7 +233,7 @@ fn generate_dynamic_machine(machine: &StateMachine) -> Result<TokenStream2> {
                                             Ok(new_machine) => #any_state_name::#target_state(new_machine),
                                             Err((old_machine, err)) => {
                                                 self.inner = ::core::option::Option::Some(#any_state_name::#source_state(old_machine));
-                                                return Err(state_machines::DynamicError::from_guard_error(err));
+                                                return Err(#guard_err);
                                             }
                                         }
                                     }
@@ -233,7 +245,7 @@ fn generate_dynamic_machine(machine: &StateMachine) -> Result<TokenStream2> {
                                             Ok(new_machine) => #any_state_name::#target_state(new_machine),
                                             Err((old_machine, err)) => {
                                                 self.inner = ::core::option::Option::Some(#any_state_name::#source_state(old_machine));
-                                                return Err(state_machines::DynamicError::from_guard_error(err));
+                                                return Err(#guard_err);
                                             }
                                         }
                                     }
@@ -246,7 +258,7 @@ fn generate_dynamic_machine(machine: &StateMachine) -> Result<TokenStream2> {
                                         Ok(new_machine) => #any_state_name::#target_state(new_machine),
                                         Err((old_machine, err)) => {
                                             self.inner = ::core::option::Option::Some(#any_state_name::#source_state(old_machine));
-                                            return Err(state_machines::DynamicError::from_guard_error(err));
+                                            return Err(#guard_err);
                                         }
                                     }
                                 }
@@ -258,7 +270,7 @@ fn generate_dynamic_machine(machine: &StateMachine) -> Result<TokenStream2> {
                                         Ok(new_machine) => #any_state_name::#target_state(new_machine),
                                         Err((old_machine, err)) => {
                                             self.inner = ::core::option::Option::Some(#any_state_name::#source_state(old_machine));
-                                            return Err(state_machines::DynamicError::from_guard_error(err));
+                                            return Err(#guard_err);
                                         }
                                     }
                                 }
